@@ -100,3 +100,70 @@ func vp_C18_sender_pseudo() {
 	_ = ev.SenderID().ToPseudoID()
 	vpReach("helpers-returned", true)
 }
+
+// vp:check C18 both configs=version:1|10|12|org.matrix.msc4014 K=24 timeout=1200
+// vp_C18_allowed_total: Allowed and StateNeededForAuth never panic, whatever the type / state key / content shape of
+// the event (every type with a rule of its own, with and without a state key, with well-typed, mistyped and empty
+// content) and whatever auth state is present. The verdict itself is the subject of C07; here every reachable Go
+// panic is a verification condition.
+func vp_C18_allowed_total() {
+	ver := RoomVersion(vpConfig("version"))
+	createID := vpCreateID(ver)
+	room := vpRoomIDFor(ver, createID)
+	typ := vpChoice("type", spec.MRoomCreate, spec.MRoomMember, spec.MRoomAliases, spec.MRoomPowerLevels, spec.MRoomRedaction, spec.MRoomJoinRules, spec.MRoomThirdPartyInvite, "m.room.name")
+	var sk *string
+	switch vpChoice("state_key", "nil", "empty", "user", "server", "other") {
+	case "empty":
+		sk = vpStrPtr("")
+	case "user":
+		sk = vpStrPtr(vpBob)
+	case "server":
+		sk = vpStrPtr("x")
+	case "other":
+		sk = vpStrPtr("@not a user id")
+	}
+	var content []byte
+	switch vpChoice("content", "empty", "membership-join", "membership-number", "levels", "levels-mistyped", "tpi-block", "tpi-block-mistyped") {
+	case "empty":
+		content = vpJObj()
+	case "membership-join":
+		content = vpJObj("membership", spec.Join)
+	case "membership-number":
+		content = vpJObj("membership", int64(5))
+	case "levels":
+		content = vpJObj("users", vpJObj(vpAlice, int64(100)), "ban", int64(50))
+	case "levels-mistyped":
+		content = vpJObj("users", vpJArr("x"), "ban", "fifty", "events", int64(3))
+	case "tpi-block":
+		content = vpJObj("membership", spec.Invite, "third_party_invite", vpJObj("display_name", "d", "signed", vpJObj("mxid", vpBob, "token", "tok", "signatures", vpJObj())))
+	default:
+		content = vpJObj("membership", spec.Invite, "third_party_invite", vpJObj("signed", "not-an-object"))
+	}
+	sender := vpChoice("sender", vpAlice, vpCarol)
+	evRoom := room
+	if vpIsV12(ver) && typ == spec.MRoomCreate && sk != nil && *sk == "" {
+		evRoom = ""
+	}
+	ev := vpMkEvent(ver, "$e:x", evRoom, sender, typ, sk, content)
+	vpSetPrev(ev, []string{"$p:x"})
+	if vpIsV12(ver) {
+		vpSetJSON(ev, vpJObj("type", typ, "sender", sender, "content", content))
+	}
+	auth, _ := NewAuthEvents(nil)
+	if vpNondetBool("has_create") {
+		cr := room
+		if vpIsV12(ver) {
+			cr = ""
+		}
+		_ = auth.AddEvent(vpMkEvent(ver, createID, cr, vpAlice, spec.MRoomCreate, vpStrPtr(""), vpJObj("creator", vpAlice, "room_version", string(ver))))
+	}
+	if vpNondetBool("has_power_levels") {
+		_ = auth.AddEvent(vpMkEvent(ver, "$pl:x", room, vpAlice, spec.MRoomPowerLevels, vpStrPtr(""), vpJObj("users", vpJObj(vpAlice, int64(100)))))
+	}
+	if vpNondetBool("sender_joined") {
+		_ = auth.AddEvent(vpMkEvent(ver, "$ms:x", room, sender, spec.MRoomMember, vpStrPtr(sender), vpJObj("membership", spec.Join)))
+	}
+	_ = StateNeededForAuth([]PDU{ev})
+	_ = Allowed(ev, auth, vpUserIDForSender)
+	vpReach("done", true)
+}
